@@ -406,9 +406,36 @@ def det_probe(ctx, C07):
             plan = det_plan(world.schema, steps, k)
             derived = apply_plan(world.schema, plan)
         except Exception as e:  # noqa
-            ctx.stat("history:derivation-refused:det:%s:%s" % ("+".join(steps), type(e).__name__))
+            # EVERY plan of DET_PLANS is accepted by the unchanged library on this fixed source (no declared default that a
+            # derivation could invalidate): a refusal means the derivation produced something the library's own schema
+            # validation rejects (rewritten enum internal values, lost python names, ...) - the requests of this probe can
+            # no longer be served at all. Reported, not counted.
+            sig = "derivation-refused:det:%s:%s" % ("+".join(steps), type(e).__name__)
+            ctx.stat("history:" + sig)
+            ctx.fail(sig, "the derivation %s of the fixed, valid source schema (accepted by the unchanged library) was refused: %s"
+                     % ("+".join(steps), str(e)[:200]),
+                     {"check": "derivation-refused", "steps": steps, "k": k, "error": str(e)[:300], "source_reg": U.reg_to_jsonable(reg)})
             continue
         check_derived(ctx, C07, "det-nodefaults", world, reg, specs, types, in_names, plan, derived, rng, 2, 40, all_args=True)
+
+
+def replay_det_refused(C07, inp):
+    """True = the fixed derivation `steps` of the deterministic probe is accepted (as on the unchanged tree)"""
+    reg = strip_defaults(history_source(snake_registry(U.fixed_registry())))
+    names = [t["name"] for t in reg["types"]]
+    in_names = [t["name"] for t in reg["types"] if t["kind"] == "input"]
+    en_names = [n for n in names if U.reg_get(reg, n)["kind"] == "enum"]
+    types = [N(n) for n in en_names] + [L(NN(N(n))) for n in en_names] + [N(n) for n in in_names]
+    specs = [[C07.arg("x", t)] for t in types]
+    specs[0] = [C07.arg("x", types[0]), C07.arg("y", N("Int"), [9], "y_py")]
+    specs[-1] = [C07.arg("y_arg", L(N("Int")), None, "y_py"), C07.arg("x", types[-1])]
+    world = C07.World(reg, specs, [])
+    use_world(world, reg)
+    try:
+        apply_plan(world.schema, det_plan(world.schema, inp["steps"], inp["k"]))
+    except Exception:  # noqa
+        return False
+    return True
 
 
 
@@ -416,7 +443,7 @@ def run(ctx, C07):
     rng = ctx.rng
     quick = ctx.tier == "quick"
     sources = [("fixed-snake", history_source(snake_registry(U.fixed_registry())))]
-    for i in range(ctx.n(1, 3)):
+    for i in range(ctx.n(1, 2)):
         sources.append(("rnd-snake%d" % i, history_source(snake_registry(U.gen_registry(rng)))))
     # neutral derivations (the same requests must hand the resolvers the same kwargs) first, then the ones that change the declaration
     neutral = [["extend-unrelated"], ["clone"], ["identity-visibility"], ["extend-unrelated", "clone"]]
